@@ -6,6 +6,7 @@ import (
 	"net/netip"
 	"os"
 	"path/filepath"
+	"testing/synctest"
 	"time"
 
 	"github.com/irai/packet"
@@ -297,6 +298,68 @@ func runC08(c *wk.Ctx) {
 	}
 	// (5) the packet loop on echo replies (matching, duplicated, foreign, truncated) while pings are pending
 	runPingStream(c, c.N(400, 20_000), 6_000_000_000)
+	// (6) slow traffic: the same frames minutes apart on a virtual clock, so that whatever the handlers do only now and then
+	// (rate limited log statements, caches with an expiry, sampled router advertisements) happens between the frames
+	nSlow := c.N(48, 1_600)
+	for k := int64(0); k < nSlow; k++ {
+		idx := 7_000_000_000 + k
+		if !c.Mine(idx) {
+			continue
+		}
+		c.Begin(idx, "slow-traffic", nil)
+		c.Eval()
+		runBubble(c, idx, func() { c08Slow(c, idx, e, scratch) })
+	}
+}
+
+// c08Epoch is the latest virtual instant any slow-traffic bubble of this process has reached: the library's rate limiters are
+// package variables that remember the instants of earlier bubbles, and every bubble's clock starts at the same point.
+var c08Epoch time.Time
+
+func c08Slow(c *wk.Ctx, idx int64, e gen.Env, scratch string) {
+	if d := time.Until(c08Epoch); d > 0 {
+		time.Sleep(d + time.Hour)
+	}
+	st := newStack(scratch, mon.DefaultNIC())
+	defer func() {
+		c08Epoch = time.Now()
+		st.close()
+		synctest.Wait()
+	}()
+	rx := newRx()
+	for i := 0; i < 120; i++ {
+		r := c.Rand("c08slow", idx*1000+int64(i))
+		var f gen.Frame
+		if i%3 == 0 {
+			f = gen.Structural(r, e)
+		} else {
+			f = handlerFrame(r, e, r.Intn(10))
+		}
+		cs := func() any {
+			return map[string]any{"index": idx, "frame_no": i, "input_hex": wk.Hex(f.B), "kind": f.Kind, "virtual_time": time.Now().Format(time.RFC3339)}
+		}
+		var frame packet.Frame
+		var err error
+		if pi := c.Guard("C01", cs, func() { frame, err = st.s.Parse(rx.load(f.B)) }); pi != nil {
+			return
+		}
+		if err == nil {
+			if pi := c.Guard("C08", cs, func() {
+				st.dispatch(frame)
+				st.s.Notify(frame)
+			}); pi != nil {
+				return
+			}
+			c.Obs("slow_traffic_frames_handled", 1)
+		}
+		rx.scribble()
+		st.rec.Take()
+		for len(st.s.C) > 0 {
+			<-st.s.C
+		}
+		time.Sleep([]time.Duration{time.Second, 61 * time.Second, 5*time.Minute + time.Second, 6 * time.Minute}[r.Intn(4)])
+	}
+	c.Class("slow-traffic")
 }
 
 func mutateBytes(r *rand.Rand, b []byte) ([]byte, string) {
